@@ -467,7 +467,38 @@ def run_vpd_short(page, plen, tail):
     return out[:3]
 
 
+def run_vpd83_types(dtype, pos):
+    """a Device Identification page holding a designator of a type the library has no table for (0Ah UUID of SPC-5, 0Bh-0Fh
+    reserved) before / between / after designators it knows: every descriptor inside PAGE LENGTH is reported, in order, the known
+    ones with their values"""
+    def dd(t, payload, codeset=1):
+        return bytes([codeset, t, 0, len(payload)]) + payload
+    known = [dd(3, bytes.fromhex("5000c50012345678")), dd(4, bytes([0, 0, 0, 7])), dd(5, bytes([0, 0, 0, 9]))]
+    odd = dd(dtype, bytes([0x10, 0] + [0xAB] * 16))
+    descs = known[:pos] + [odd] + known[pos:]
+    page = b"".join(descs)
+    buf = bytes([0, 0x83]) + len(page).to_bytes(2, "big") + page + bytes(20)
+    Inq = lib("Inquiry")
+    try:
+        d = Inq.unmarshall_datain(bytearray(buf), evpd=1)
+    except Exception as e:   # noqa: BLE001
+        return [("vpd83_types/raises", "VPD 83h with a designator of type %02Xh at position %d: raised %s: %s" % (dtype, pos, type(e).__name__, e))]
+    got = [x.get("designator_type") for x in d.get("designator_descriptors", [])]
+    want = [3, 4, 5][:pos] + [dtype] + [3, 4, 5][pos:]
+    out = []
+    if got != want:
+        out.append(("vpd83_types/descriptors", "VPD 83h holds designators of types %r inside PAGE LENGTH, the decoder reports %r" % (want, got)))
+    else:
+        ds = d["designator_descriptors"]
+        vals = [x.get("designator") for x in ds if x.get("designator_type") in (3, 4, 5)]
+        if vals != [{"naa": 5, "ieee_company_id": 3152, "vendor_specific_identifier": 305419896}, {"relative_port": 7}, {"target_portal_group": 9}]:
+            out.append(("vpd83_types/values", "VPD 83h with a type %02Xh designator at position %d: the known designators decode to %r" % (dtype, pos, vals)))
+    return out
+
+
 def run_case(case, obs=None):
+    if case[0] == "vpd83_types":
+        return run_vpd83_types(case[1], case[2])
     if case[0] == "vpd_short":
         return run_vpd_short(case[1], case[2], case[3])
     if case[0] == "aba":
@@ -826,6 +857,18 @@ def run_partition(part, tier, seed):
         acc.evaluations += len(others)
         return acc
     if part[0] == "vpd_short":
+        for dtype in range(0x0A, 0x10):
+            for pos in range(4):
+                case = ["vpd83_types", dtype, pos]
+                acc.case(case, nontrivial=True, key=repr(case))
+                try:
+                    v = run_case(case)
+                except Exception:
+                    import traceback
+                    v = [("harness_error/vpd83_types", traceback.format_exc()[-600:])]
+                for kk, w in v:
+                    acc.violation(kk, w, case)
+                acc.outcome((repr(case), tuple(x for x, _ in v)))
         for page, (fields, size) in sorted(R.VPD_FIXED.items()):
             for plen in range(0, size - 4 + 1):
                 for tail in (0xA5, 0xFF):
